@@ -117,7 +117,10 @@ def py_ds(d):
     if other:
         ds.PatientName = "x"
     if not enc:
-        ds.add_new(0x00280010, "US", "abc")  # Rows with a str value: pydicom's writer raises, dsutils.encode() returns None
+        # Rows with a value pydicom's writer cannot pack: dsutils.encode() returns None whatever the writer raises
+        # (a str gives AttributeError/TypeError, an out-of-range int a struct.error re-raised as OSError/ValueError)
+        bad = ["abc", 70000, -1][((uid or 0) + (aff or 0) + int(bool(fl)) + int(bool(other))) % 3]
+        ds.add_new(0x00280010, "US", bad)
     return ds
 
 
